@@ -130,6 +130,22 @@ def formal_degree(D):
     return max((len(set(k)) for k in D), default=0)
 
 
+def squashed_len(k, spin):
+    if spin:
+        return sum(1 for l in set(k) if k.count(l) % 2)
+    return len(set(k))
+
+
+def product_overflows(A, B, spin):
+    """True if some term-by-term product key of A x B denotes more than two variables after squashing
+    (x*x = x for booleans, z*z = 1 for spins), i.e. a degree-2 type cannot even hold the intermediate term."""
+    for ka in A:
+        for kb in B:
+            if squashed_len(tuple(ka) + tuple(kb), spin) > 2:
+                return True
+    return False
+
+
 def canon_check(obj, table, labels, spin):
     """Stored dict must be the canonical multilinear form of the table: sorted keys, no repeats, no zeros."""
     can = rp.canonical(table, labels, spin)
@@ -205,10 +221,12 @@ def step(hist):
                 expect_types = (otype, cur_type) if False else (otype,)
             res_deg2 = (expect_types[0] in gen.DEG2)
             if res_deg2:
+                okeys = [] if od[0] == "num" else (list(cur.keys()) if od[0] == "self" else list(OD.keys() if od[0] != "self" else []))
                 if name == "mul" and od[0] != "num":
-                    may_raise = selfdeg + odeg > 2
+                    # KeyError is acceptable only if an intermediate product term really denotes > 2 variables
+                    may_raise = product_overflows(list(cur.keys()), okeys, spin)
                 else:
-                    may_raise = max(selfdeg, odeg) > 2
+                    may_raise = any(squashed_len(k, spin) > 2 for k in okeys)
             f = {("add", "fwd"): lambda: cur + operand, ("add", "refl"): lambda: operand + cur,
                  ("sub", "fwd"): lambda: cur - operand, ("sub", "refl"): lambda: operand - cur,
                  ("mul", "fwd"): lambda: cur * operand, ("mul", "refl"): lambda: operand * cur}.get((name, variant))
@@ -229,7 +247,18 @@ def step(hist):
         elif op[0] == "pow":
             _, k, inplace = op
             ref = table ** k
-            may_raise = cur_deg2 and selfdeg * k > 2
+            may_raise = False
+            if cur_deg2 and k > 1:
+                # a **= k multiplies (k-1) times by the original; intermediate results are canonical
+                inter = list(cur.keys())
+                base = list(cur.keys())
+                t_acc = table.copy()
+                for _ in range(k - 1):
+                    if product_overflows(inter, base, spin):
+                        may_raise = True
+                        break
+                    t_acc = t_acc * table
+                    inter = [tuple(labels[j] for j in kk) for kk in rp.canonical(t_acc, labels, spin)]
             if inplace:
                 must_be_same_obj = True
 
